@@ -1,22 +1,37 @@
 (* C09 — executable model of the protocol services' state handling (no proofs here).
 
    One generic machine, instantiated per protocol from the tables that the translator regenerates from
-   /repo on every run (coq/gen/Gen_C09.v): issue-credential, present-proof, introduce have the same
-   service loop (pkg/didcomm/protocol/{issuecredential,presentproof,introduce}/service.go):
+   /repo on every run (coq/gen/Gen_C09.v).
 
+   issue-credential, present-proof, introduce (pkg/didcomm/protocol/{issuecredential,presentproof,introduce}/service.go):
      HandleInbound/HandleOutbound -> doHandle/buildMetaData: current := persisted state of the thread
        (start if none); next := nextState(msg type, direction); reject unless current.CanTransitionTo(next)
      inbound message types of canTriggerActionEvents: an action event is raised, NOTHING is persisted;
        the application later calls Continue(opt) or Stop on the event
      otherwise handle(md) runs at once
      handle: execute the state (PreState + PostState announced), take its follow-up state, check
-       current.CanTransitionTo(followup), go on until noop; issue-credential and introduce persist the
-       LAST executed state name once the chain ended, present-proof persists each state of the chain
+       current.CanTransitionTo(followup), go on until noop;
+       issue-credential / introduce: persist the LAST executed state name once the chain ended, THEN run the
+         collected network actions;
+       present-proof: persist each state and run its action inside the loop, before the follow-up is executed
      listener (Continue/Stop): handle(md); on error or Stop: md.state := abandoning/abandoned, handle again
        -- WITHOUT looking at the persisted state again (the code as it is: observation #16)
 
+   DID Exchange, legacy Connection (didexchange/service.go, legacyconnection/service.go):
+     HandleInbound: nextState (current.CanTransitionTo(stateFromMsgType)) or reject; handle in a goroutine
+     handle: execute, persist (connection record), action, per state; after `invited` (invitee) / `requested`
+       (inviter) the action event is raised with the FOLLOW-UP as continuation and execution halts
+     Continue: handle from the stored follow-up; error / Stop: DID Exchange persists and announces `abandoned`,
+       legacy Connection does nothing
+     AcceptInvitation / AcceptExchangeRequest (API): refused unless the thread's CURRENT state is the state the
+       event was raised in; then handle from the stored follow-up (no abandon on error)
+
+   Faults (one per op, injected by the harness): f_get = the read of the thread's state fails; f_tp = the write
+   of the action event's transitional payload fails; f_put = Some k: the k-th write of the thread's state fails;
+   f_act = Some j: the network action of the j-th executed state of the op fails (observed position).
+
    States, message types and options are numbers (position in the generated name lists; state 0 = noop). *)
-From Coq Require Import List NArith Bool.
+From Coq Require Import List NArith Bool Arith.
 Import ListNotations.
 Local Open Scope N_scope.
 
@@ -28,13 +43,16 @@ Record proto := {
   p_abandon : st;                        (* the state the listener switches to on error / Stop *)
   p_terminal : list st;
   p_edges : list (st * st);              (* generated: CanTransitionTo *)
-  p_targets : list (N * bool * bool * option st);   (* generated: (msg, v3, outbound) -> nextState *)
+  p_targets : list (N * bool * bool * option st);   (* generated: (msg, v3 | namespace, outbound) -> nextState *)
   p_actions : list (N * bool);           (* generated: (msg, v3) raising an action event when inbound *)
   p_exec : list (st * bool * bool * N * bool * option st);  (* generated follow-up table *)
-  p_tape : bool;                         (* follow-ups are read from the op's tape (introduce) *)
-  p_persist_each : bool;                 (* present-proof: every state of the chain is persisted *)
+  p_tape : bool;                         (* follow-ups are read from the op's tape *)
+  p_persist_each : bool;                 (* every state of the chain is persisted, its action runs inside the loop *)
   p_stop_handles : list N;               (* message types whose Stop still runs handle (introduce: proposal) *)
-  p_cont_stops : list (N * N)            (* (msg, opt): Continue behaves like an internal error (introduce: request without recipients) *)
+  p_cont_stops : list (N * N);           (* (msg, opt): Continue behaves like an internal error *)
+  p_post_actions : list (st * bool);     (* generated: (state, namespace): executing it raises the action event *)
+  p_abandons : bool;                     (* the listener abandons on error / Stop *)
+  p_async : bool                         (* handling errors of a message are not reported to the caller *)
 }.
 
 Definition pair_eqb (a b : st * st) : bool := N.eqb (fst a) (fst b) && N.eqb (snd a) (snd b).
@@ -44,7 +62,7 @@ Definition can (p : proto) (a b : st) : bool := existsb (pair_eqb (a, b)) (p_edg
 Definition terminal (p : proto) (a : st) : bool := memN a (p_terminal p).
 
 (* the published graph as far as the machine needs it: the implementation's relation plus
-   "any non-terminal state may be abandoned" (RFC 0453/0454/0028: problem-report / error from any state) *)
+   "any non-terminal state may be abandoned" (problem-report / error from any state) *)
 Definition sedge (p : proto) (a b : st) : bool :=
   can p a b || (N.eqb b (p_abandon p) && negb (terminal p a)).
 
@@ -58,6 +76,9 @@ Definition target (p : proto) (m : N) (v3 outbound : bool) : option st :=
 Definition is_action (p : proto) (m : N) (v3 : bool) : bool :=
   existsb (fun r => N.eqb m (fst r) && Bool.eqb v3 (snd r)) (p_actions p).
 
+Definition post_action (p : proto) (c : st) (ns : bool) : bool :=
+  existsb (fun r => N.eqb c (fst r) && Bool.eqb ns (snd r)) (p_post_actions p).
+
 Definition exec_tbl (p : proto) (c : st) (v3 inbound : bool) (opt : N) (flag : bool) : option st :=
   match find (fun r => match r with (c', v', i', o', f', _) =>
                 N.eqb c c' && Bool.eqb v3 v' && Bool.eqb inbound i' && N.eqb opt o' && Bool.eqb flag f' end)
@@ -66,8 +87,19 @@ Definition exec_tbl (p : proto) (c : st) (v3 inbound : bool) (opt : N) (flag : b
   | None => None
   end.
 
-(* a pending action event *)
-Record ev := { e_t : thid; e_st : st; e_msg : N; e_v3 : bool; e_flag : bool; e_live : bool }.
+Record fault := { f_get : bool; f_tp : bool; f_put : option nat; f_act : option nat }.
+Definition nofault : fault := {| f_get := false; f_tp := false; f_put := None; f_act := None |}.
+Definition is_nofault (f : fault) : bool :=
+  negb (f_get f) && negb (f_tp f) && match f_put f with None => true | _ => false end
+  && match f_act f with None => true | _ => false end.
+
+Definition hit (f : option nat) (n : nat) : bool := match f with Some j => Nat.eqb j n | None => false end.
+(* some position in [base, base + len) *)
+Definition hit_range (f : option nat) (base len : nat) : bool :=
+  match f with Some j => Nat.leb base j && Nat.ltb j (base + len) | None => false end.
+
+(* a pending action event: e_src is the thread's state when the event was raised *)
+Record ev := { e_t : thid; e_src : st; e_st : st; e_msg : N; e_v3 : bool; e_flag : bool; e_live : bool }.
 
 Record sstate := { persisted : list (thid * st); pending : list ev }.
 Definition s0 : sstate := {| persisted := []; pending := [] |}.
@@ -76,13 +108,17 @@ Definition cur (p : proto) (s : sstate) (t : thid) : st :=
   match find (fun x => N.eqb (fst x) t) (persisted s) with Some x => snd x | None => p_start p end.
 Definition set (s : sstate) (t : thid) (x : st) : sstate :=
   {| persisted := (t, x) :: persisted s; pending := pending s |}.
+Definition commit (s : sstate) (t : thid) (pers : option st) : sstate :=
+  match pers with Some x => set s t x | None => s end.
+Definition add_ev (s : sstate) (e : ev) : sstate :=
+  {| persisted := persisted s; pending := pending s ++ [e] |}.
 
 (* parameters of one execution context *)
-Record ctx := { c_v3 : bool; c_inbound : bool; c_opt : N; c_flag : bool }.
+Record ctx := { c_v3 : bool; c_inbound : bool; c_opt : N; c_flag : bool; c_f : fault }.
 
 (* the follow-up of executing state c: a terminal state executed inbound has no follow-up
-   (done/abandoned return noOp; Spec.exec_terminal_b checks the generated table against this rule); otherwise from
-   the generated table, or from the tape (head) *)
+   (done/abandoned/completed return noOp; Spec.exec_terminal_b checks the generated table against this rule);
+   otherwise from the generated table, or from the tape (head) *)
 Definition exec1 (p : proto) (k : ctx) (c : st) (tape : list (option st)) : option st * list (option st) :=
   if terminal p c && c_inbound k then (Some 0, tape)
   else if p_tape p then
@@ -92,43 +128,66 @@ Definition exec1 (p : proto) (k : ctx) (c : st) (tape : list (option st)) : opti
     end
   else (exec_tbl p c (c_v3 k) (c_inbound k) (c_opt k) (c_flag k), tape).
 
-(* handle's loop: (announced states, ok?, rest of tape).  fuel bounds the chain (the code would spin). *)
-Fixpoint chain (p : proto) (k : ctx) (fuel : nat) (c : st) (tape : list (option st))
-  : list st * bool * list (option st) :=
+(* result of running handle's loop *)
+Record cres := {
+  r_ann : list st;            (* announced states *)
+  r_pers : option st;         (* what the loop itself left persisted (persist-each mode) *)
+  r_ok : bool;
+  r_halt : option st;         (* an action event is to be raised for this follow-up *)
+  r_tape : list (option st);
+  r_np : nat;                 (* state writes attempted so far in the op *)
+  r_ix : nat                  (* states executed so far in the op *)
+}.
+
+Definition cfail (ann : list st) (pers : option st) tape np ix : cres :=
+  {| r_ann := ann; r_pers := pers; r_ok := false; r_halt := None; r_tape := tape; r_np := np; r_ix := ix |}.
+
+(* handle's loop.  fuel bounds the chain (the code would spin). *)
+Fixpoint chain (p : proto) (k : ctx) (fuel : nat) (c : st) (tape : list (option st)) (np ix : nat) : cres :=
   match fuel with
-  | O => ([], false, tape)
+  | O => cfail [] None tape np ix
   | S f =>
       match exec1 p k c tape with
-      | (None, tape') => ([c], false, tape')                       (* Execute failed (events already sent) *)
+      | (None, tape') => cfail [c] None tape' np (S ix)              (* Execute failed (events already sent) *)
       | (Some n, tape') =>
-          if N.eqb n 0 then ([c], true, tape')
-          else if can p c n then
-                 let '(ann, ok, tp) := chain p k f n tape' in (c :: ann, ok, tp)
-               else ([c], false, tape')                            (* invalid state transition: c --> n *)
+          if negb (N.eqb n 0) && negb (can p c n) then cfail [c] None tape' np (S ix)   (* invalid transition c --> n *)
+          else
+            let go (np1 : nat) (pc : option st) :=
+              if N.eqb n 0 then
+                {| r_ann := [c]; r_pers := pc; r_ok := true; r_halt := None; r_tape := tape'; r_np := np1; r_ix := S ix |}
+              else if post_action p c (c_v3 k) then
+                {| r_ann := [c]; r_pers := pc; r_ok := true; r_halt := Some n; r_tape := tape'; r_np := np1; r_ix := S ix |}
+              else
+                let r := chain p k f n tape' np1 (S ix) in
+                {| r_ann := c :: r_ann r; r_pers := match r_pers r with Some x => Some x | None => pc end;
+                   r_ok := r_ok r; r_halt := r_halt r; r_tape := r_tape r; r_np := r_np r; r_ix := r_ix r |} in
+            if p_persist_each p then
+              if hit (f_put (c_f k)) np then cfail [c] None tape' (S np) (S ix)        (* the state write fails *)
+              else if hit (f_act (c_f k)) ix then cfail [c] (Some c) tape' (S np) (S ix)  (* its action fails *)
+              else go (S np) (Some c)
+            else go np None
       end
   end.
 
 Definition chain_fuel : nat := 12.
 
-Definition last_st (l : list st) (d : st) : st := last l d.
-(* the state persisted by a FAILED chain: none (issue-credential, introduce) or the last element that
-   completed (present-proof persists inside the loop) *)
-Definition penult (l : list st) : option st :=
-  match rev l with
-  | _ :: x :: _ => Some x
-  | _ => None
-  end.
-
-Definition commit (p : proto) (s : sstate) (t : thid) (ann : list st) (ok : bool) : sstate :=
-  if ok then set s t (last_st ann (cur p s t))
-  else if p_persist_each p then
-         match penult ann with Some x => set s t x | None => s end
-       else s.
+(* handle: the loop, then (persist-last protocols) the write of the last state and the collected actions *)
+Definition run_chain (p : proto) (k : ctx) (c : st) (tape : list (option st)) (np ix : nat) : cres :=
+  let r := chain p k chain_fuel c tape np ix in
+  if p_persist_each p then r
+  else if r_ok r then
+    if hit (f_put (c_f k)) (r_np r) then cfail (r_ann r) None (r_tape r) (S (r_np r)) (r_ix r)
+    else if hit_range (f_act (c_f k)) ix (r_ix r - ix) then
+           cfail (r_ann r) (Some (last (r_ann r) c)) (r_tape r) (S (r_np r)) (r_ix r)
+         else {| r_ann := r_ann r; r_pers := Some (last (r_ann r) c); r_ok := true; r_halt := r_halt r;
+                 r_tape := r_tape r; r_np := S (r_np r); r_ix := r_ix r |}
+  else cfail (r_ann r) None (r_tape r) (r_np r) (r_ix r).
 
 Inductive op :=
-| Msg (outbound : bool) (m : N) (v3 flag : bool) (t : thid) (tape : list (option st))
-| Continue (e : nat) (opt : N) (tape : list (option st))
-| Stop (e : nat) (tape : list (option st)).
+| Msg (outbound : bool) (m : N) (v3 flag : bool) (t : thid) (f : fault) (tape : list (option st))
+| Continue (e : nat) (opt : N) (f : fault) (tape : list (option st))
+| Stop (e : nat) (f : fault) (tape : list (option st))
+| Accept (e : nat) (tape : list (option st)).
 
 Inductive res := RReject | RAction | ROk | RErr | RNoEvent.
 
@@ -140,69 +199,99 @@ Definition res_eqb (a b : res) : bool :=
 
 Fixpoint kill (l : list ev) (n : nat) : list ev :=
   match l, n with
-  | e :: r, O => {| e_t := e_t e; e_st := e_st e; e_msg := e_msg e; e_v3 := e_v3 e; e_flag := e_flag e;
-                    e_live := false |} :: r
+  | e :: r, O => {| e_t := e_t e; e_src := e_src e; e_st := e_st e; e_msg := e_msg e; e_v3 := e_v3 e;
+                    e_flag := e_flag e; e_live := false |} :: r
   | e :: r, S n' => e :: kill r n'
   | [], _ => []
   end.
 
-(* the listener: handle, then abandon on failure / Stop *)
-Definition listener (p : proto) (s : sstate) (e : ev) (opt : N) (skip_handle : bool) (tape : list (option st))
-  : sstate * list st :=
-  let k := {| c_v3 := e_v3 e; c_inbound := true; c_opt := opt; c_flag := e_flag e |} in
-  let t := e_t e in
-  let '(s1, ann1, ok1, tape1) :=
-    if skip_handle then (s, [], false, tape)
-    else let '(ann, ok, tp) := chain p k chain_fuel (e_st e) tape in (commit p s t ann ok, ann, ok, tp) in
-  if ok1 then (s1, ann1)
-  else
-    let '(ann2, ok2, _) := chain p k chain_fuel (p_abandon p) tape1 in
-    (commit p s1 t ann2 ok2, ann1 ++ ann2).
+(* run handle for thread t from state c, commit what it persisted, raise the action event it halted for.
+   `ab`: abandon afterwards when it failed (the listener).  Returns the state, the announced states and
+   `fat`: the chain failed after announcing a terminal state (the abandon that follows leaves it). *)
+Definition process (p : proto) (s : sstate) (t : thid) (k : ctx) (m : N) (c : st) (skip ab : bool)
+    (tape : list (option st)) : sstate * list st * bool * bool :=
+  let r1 := if skip then cfail [] None tape 0%nat 0%nat else run_chain p k c tape 0%nat 0%nat in
+  let s1 := commit s t (r_pers r1) in
+  let s1' := match r_halt r1 with
+             | Some n => add_ev s1 {| e_t := t; e_src := last (r_ann r1) c; e_st := n; e_msg := m; e_v3 := c_v3 k;
+                                      e_flag := c_flag k; e_live := true |}
+             | None => s1
+             end in
+  if r_ok r1 then (s1', r_ann r1, true, false)
+  else if ab && p_abandons p then
+    let r2 := run_chain p k (p_abandon p) (r_tape r1) (r_np r1) (r_ix r1) in
+    (commit s1 t (r_pers r2), r_ann r1 ++ r_ann r2, false,
+     negb skip && terminal p (last (r_ann r1) (cur p s t)))
+  else (s1, r_ann r1, false, false).
 
-Definition step (p : proto) (s : sstate) (o : op) : sstate * (res * list st) :=
+Definition step_full (p : proto) (s : sstate) (o : op) : sstate * (res * list st) * bool :=
   match o with
-  | Msg outbound m v3 flag t tape =>
+  | Msg outbound m v3 flag t f tape =>
+      if f_get f then (s, (RReject, []), false)
+      else
       match target p m v3 outbound with
-      | None => (s, (RReject, []))
+      | None => (s, (RReject, []), false)
       | Some x =>
-          if negb (can p (cur p s t) x) then (s, (RReject, []))
+          if negb (can p (cur p s t) x) then (s, (RReject, []), false)
           else if negb outbound && is_action p m v3 then
-                 ({| persisted := persisted s;
-                     pending := pending s ++ [{| e_t := t; e_st := x; e_msg := m; e_v3 := v3; e_flag := flag;
-                                                 e_live := true |}] |}, (RAction, []))
+                 if f_tp f then (s, (RReject, []), false)
+                 else (add_ev s {| e_t := t; e_src := cur p s t; e_st := x; e_msg := m; e_v3 := v3; e_flag := flag;
+                                   e_live := true |}, (RAction, []), false)
                else
-                 let k := {| c_v3 := v3; c_inbound := negb outbound; c_opt := 0; c_flag := flag |} in
-                 let '(ann, ok, _) := chain p k chain_fuel x tape in
-                 (commit p s t ann ok, (if ok then ROk else RErr, ann))
+                 let k := {| c_v3 := v3; c_inbound := negb outbound; c_opt := 0; c_flag := flag; c_f := f |} in
+                 let '(s1, ann, ok, _) := process p s t k m x false false tape in
+                 (s1, (if ok || p_async p
+                       then (if Nat.ltb (length (pending s)) (length (pending s1)) then RAction else ROk)
+                       else RErr, ann), false)
       end
-  | Continue e opt tape =>
+  | Continue e opt f tape =>
       match nth_error (pending s) e with
       | Some v =>
           if e_live v then
             let s' := {| persisted := persisted s; pending := kill (pending s) e |} in
             let skip := existsb (fun r => N.eqb (fst r) (e_msg v) && N.eqb (snd r) opt) (p_cont_stops p) in
-            let '(s2, ann) := listener p s' v opt skip tape in (s2, (ROk, ann))
-          else (s, (RNoEvent, []))
-      | None => (s, (RNoEvent, []))
+            let k := {| c_v3 := e_v3 v; c_inbound := true; c_opt := opt; c_flag := e_flag v; c_f := f |} in
+            let '(s2, ann, _, fat) := process p s' (e_t v) k (e_msg v) (e_st v) skip true tape in
+            (s2, (ROk, ann), fat)
+          else (s, (RNoEvent, []), false)
+      | None => (s, (RNoEvent, []), false)
       end
-  | Stop e tape =>
+  | Stop e f tape =>
       match nth_error (pending s) e with
       | Some v =>
           if e_live v then
             let s' := {| persisted := persisted s; pending := kill (pending s) e |} in
             let skip := negb (memN (e_msg v) (p_stop_handles p)) in
-            let '(s2, ann) := listener p s' v 0 skip tape in (s2, (ROk, ann))
-          else (s, (RNoEvent, []))
-      | None => (s, (RNoEvent, []))
+            let k := {| c_v3 := e_v3 v; c_inbound := true; c_opt := 0; c_flag := e_flag v; c_f := f |} in
+            let '(s2, ann, _, fat) := process p s' (e_t v) k (e_msg v) (e_st v) skip true tape in
+            (s2, (ROk, ann), fat)
+          else (s, (RNoEvent, []), false)
+      | None => (s, (RNoEvent, []), false)
+      end
+  | Accept e tape =>
+      match nth_error (pending s) e with
+      | Some v =>
+          if N.eqb (cur p s (e_t v)) (e_src v) then
+            let s' := {| persisted := persisted s; pending := kill (pending s) e |} in
+            let k := {| c_v3 := e_v3 v; c_inbound := true; c_opt := 0; c_flag := e_flag v; c_f := nofault |} in
+            let '(s2, ann, ok, _) := process p s' (e_t v) k (e_msg v) (e_st v) false false tape in
+            (s2, (if ok then ROk else RErr, ann), false)
+          else (s, (RReject, []), false)
+      | None => (s, (RNoEvent, []), false)
       end
   end.
+
+Definition step (p : proto) (s : sstate) (o : op) : sstate * (res * list st) := fst (step_full p s o).
+(* the step abandoned a thread after announcing a terminal state (only possible when a fault was injected) *)
+Definition step_fat (p : proto) (s : sstate) (o : op) : bool := snd (step_full p s o).
 
 (* the thread an operation works on *)
 Definition op_thread (s : sstate) (o : op) : option thid :=
   match o with
-  | Msg _ _ _ _ t _ => Some t
-  | Continue e _ _ | Stop e _ =>
+  | Msg _ _ _ _ t _ _ => Some t
+  | Continue e _ _ _ | Stop e _ _ =>
       match nth_error (pending s) e with Some v => if e_live v then Some (e_t v) else None | None => None end
+  | Accept e _ => match nth_error (pending s) e with Some v => Some (e_t v) | None => None end
   end.
 
 Fixpoint run (p : proto) (s : sstate) (ops : list op) : sstate * list (res * list st) :=
@@ -213,16 +302,30 @@ Fixpoint run (p : proto) (s : sstate) (ops : list op) : sstate * list (res * lis
 
 Definition final (p : proto) (s : sstate) (ops : list op) : sstate := fst (run p s ops).
 
-(* ---- the "busy" discipline: nothing is accepted on a thread while one of its action events is open ---- *)
+(* ---- the guards of the partial theorems ----
+   busy discipline: nothing is accepted on a thread while one of its action events is open (an API Accept
+   only for the thread's single open event);  no abandon after a terminal state was announced. *)
 Definition has_live (s : sstate) (t : thid) : bool :=
   existsb (fun e => e_live e && N.eqb (e_t e) t) (pending s).
+
+Fixpoint live_others (l : list ev) (i : nat) (t : thid) : bool :=
+  match l with
+  | [] => false
+  | e :: r => match i with
+              | O => existsb (fun e' => e_live e' && N.eqb (e_t e') t) r
+              | S i' => (e_live e && N.eqb (e_t e) t) || live_others r i' t
+              end
+  end.
 
 Definition is_reject (r : res) : bool := match r with RReject => true | _ => false end.
 
 Definition disciplined_step (p : proto) (s : sstate) (o : op) : bool :=
   match o with
-  | Msg _ _ _ _ t _ => negb (has_live s t) || is_reject (fst (snd (step p s o)))
-  | _ => true
+  | Msg _ _ _ _ t _ _ => negb (has_live s t) || is_reject (fst (snd (step p s o)))
+  | Accept e _ =>
+      is_reject (fst (snd (step p s o))) ||
+      match nth_error (pending s) e with Some v => negb (live_others (pending s) e (e_t v)) | None => true end
+  | _ => negb (step_fat p s o)
   end.
 
 Fixpoint disciplined (p : proto) (s : sstate) (ops : list op) : bool :=
@@ -254,3 +357,6 @@ Fixpoint all_steps_ok (p : proto) (s : sstate) (ops : list op) : bool :=
   | [] => true
   | o :: r => step_ok p s o && all_steps_ok p (fst (step p s o)) r
   end.
+
+Definition op_fault (o : op) : fault :=
+  match o with Msg _ _ _ _ _ f _ | Continue _ _ f _ | Stop _ f _ => f | Accept _ _ => nofault end.
